@@ -350,6 +350,7 @@ func TestC03(t *testing.T) {
 	units = append(units, historyUnits()...)
 	units = append(units, nonNumUnits()...)
 	units = append(units, ttlPastUnits()...)
+	units = append(units, expireDuringUnits()...)
 	units = append(units, realMonUnits()...)
 	if only := os.Getenv("C03_ONLY"); only != "" {
 		var f []unit
@@ -420,7 +421,7 @@ func replay(t *testing.T, path string) {
 		t.Fatalf("not a C03 replay artefact: %v", err)
 	}
 	c := art.Detail.Case
-	o := rigOpts{alloc: c.Alloc, defMin: c.DefMin, defMax: c.DefMax, history: c.Variant == "history", ttlPast: c.Variant == "ttlpast", realMon: c.Variant == "realmon"}
+	o := rigOpts{alloc: c.Alloc, defMin: c.DefMin, defMax: c.DefMax, history: c.Variant == "history", ttlPast: c.Variant == "ttlpast", realMon: c.Variant == "realmon", expireDuring: c.Variant == "expire-during"}
 	R.NotExhaustive("replay of one recorded case")
 	runUnits(t, []unit{{name: "replay", opts: o, body: func(r *rig) {
 		if o.realMon {
